@@ -294,15 +294,28 @@ func hasNL(n *LogNode) bool {
 // full query through the portfolio.
 func (x *Exec) solveObligation(n *LogNode, budget int) SolveResult {
 	var spent int64
+	// 1. sliced, nonlinear definitions abstracted
+	q := x.buildQueryOpt(n, true, true)
+	for _, s := range []int{1, 0} {
+		r := runSolver(solvers[s], q, 2, false)
+		spent += r.Ms
+		if r.Status == "unsat" {
+			r.Ms = spent
+			r.Solver += "(sliced)"
+			return r
+		}
+	}
+	// 2. sliced with nonlinear definitions / unsliced without
 	if hasNL(n) {
-		q := x.buildQueryOpt(n, true)
-		for _, s := range []int{0, 1} {
-			r := runSolver(solvers[s], q, 2, false)
-			spent += r.Ms
-			if r.Status == "unsat" {
-				r.Ms = spent
-				r.Solver += "(nl-abstracted)"
-				return r
+		for _, q := range []string{x.buildQueryOpt(n, false, true), x.buildQueryOpt(n, true, false)} {
+			for _, s := range []int{1, 0} {
+				r := runSolver(solvers[s], q, 3, false)
+				spent += r.Ms
+				if r.Status == "unsat" {
+					r.Ms = spent
+					r.Solver += "(abstracted)"
+					return r
+				}
 			}
 		}
 	}
